@@ -6,12 +6,15 @@ suite "gated"   deterministic schedules.  An SQLite authorizer installed (by the
                 driver, on the pooled connections of the store handle the server
                 itself uses) stops a session right before the statements
                 C INSERT mailboxes / R SELECT uid_next / U UPDATE uid_next /
-                I INSERT message_mailbox.  A schedule is a list of grants; one
+                I INSERT message_mailbox (R is reached only by code that reads
+                uid_next in a statement of its own, i.e. the unrepaired
+                IncrementUIDNextPerUser).  A schedule is a list of grants; one
                 grant lets one session run to its next gate.  Replies, the gate
                 trace (= statement order), uid_next and the (uid, owner) list of
                 the target folder are compared with run_grants of the model,
                 evaluated inside Coq.  Includes every interleaving of two
-                4-grant deliveries (70) and the witnesses of the finding classes.
+                deliveries to an existing folder (20) and to a missing folder (70)
+                and the regression witnesses of the repaired races.
 suite "sampled" real, unforced concurrency: k LMTP / IMAP writers in one process,
                 deliveries through a second DBManager on the same directory;
                 every reply collected; final audit of the stores against the
@@ -28,7 +31,7 @@ import common as C
 
 PID = "C08"
 USER = "u@example.com"
-CLASSES = {1: "uidnext_race", 2: "create_race"}
+CLASSES = {}        # no finding class is left (uidnext_race, create_race: repaired)
 POINT = {"C": 1, "R": 2, "U": 3, "I": 4, "done": 5, "noop": 5}
 
 
@@ -292,7 +295,7 @@ def gen_gated_case(rng, two_mgr):
             ths.append(["D", bool(two_mgr and rng.random() < 0.5)])
         else:
             ths.append(["A", rng.choice([[], [], ["\\Seen"], ["\\Flagged"]])])
-    per = 5
+    per = 4
     grants = [i for i in range(nt) for _ in range(per)]
     rng.shuffle(grants)
     return {"existing": existing, "threads": ths, "grants": grants}
@@ -427,7 +430,7 @@ def audit_sampled(sc, res):
             mx[l[2]] = max(mx.get(l[2], 0), l[3])
         for mid, top in mx.items():
             m = mb.get(mid)
-            if m and m[2] != "Trash" and m[4] <= top:      # Trash is the UID COPY target (C03 class copy_stale_uidnext)
+            if m and m[4] <= top:
                 viol.append(("d", "store %s: mailbox %s advertises UIDNEXT %d, UID %d exists" % (name, m[2], m[4], top)))
     return None, viol, failures, {"acked": acked, "refused": refused, "users": users, "dump": dump}
 
@@ -531,7 +534,8 @@ def run(chk):
     corp = corpus_cases()
     n = run_gated_batches(chk, [[cs for _, cs in corp]], stats, "corpus")
     # ---- 2. gated: every interleaving of two 4-grant deliveries + random mixed cases
-    exhaustive = [{"existing": True, "threads": [["D", False], ["D", False]], "grants": s} for s in interleavings(4, 4)]
+    exhaustive = [{"existing": True, "threads": [["D", False], ["D", False]], "grants": s} for s in interleavings(3, 3)]
+    exhaustive += [{"existing": False, "threads": [["D", False], ["D", False]], "grants": s} for s in interleavings(4, 4)]
     n_rand = 36 if quick else 360
     rand = [gen_gated_case(rng, two_mgr=(i % 3 == 0)) for i in range(n_rand)]
     allc = exhaustive + rand
@@ -551,11 +555,7 @@ def run(chk):
         for f in failures:
             fc = failure_class(f) or ("other: " + re.sub(r"\d+", "N", f)[:100])
             sampled_failures[fc] = sampled_failures.get(fc, 0) + 1
-        for f in failures:
-            fc = failure_class(f)
-            if fc:
-                chk.violation("sampled concurrency: a delivery/APPEND that succeeds on its own was refused: %s" % f[:160], {"suite": "sampled", "scenario": sc}, cls=fc)
-        unknown_fail = [f for f in failures if not failure_class(f)]
+        unknown_fail = list(failures)
         if viol or unknown_fail:
             # timing dependent: report only what shows again when the scenario is replayed
             again_v, again_f = [], []
@@ -564,7 +564,7 @@ def run(chk):
                 if t2:
                     continue
                 again_v += [x for x in v2 if x[0] in [y[0] for y in viol]]
-                again_f += [x for x in f2 if not failure_class(x)]
+                again_f += list(f2)
             if viol and again_v:
                 chk.violation("sampled concurrency (%d LMTP + %d IMAP sessions): %s [seen again in replay: %s]" % (sc["n_lmtp"], sc["n_imap"], viol[0][1], again_v[0][1][:120]),
                               {"suite": "sampled", "scenario": sc, "violations": viol[:5]})
@@ -589,9 +589,9 @@ def run(chk):
     chk.cov["distinct_nontrivial"] = len({(json.dumps(c["threads"]), c["existing"], tuple(c["grants"])) for c in allc if len(set(c["grants"][:6])) > 1})
     chk.cov["rule"] = ("one evaluation = one deterministic schedule (list of grants) of 2-3 concurrent sessions (LMTP delivery / IMAP APPEND, target folder existing or not, "
                        "optionally through a second DBManager) executed on the implementation under SQLite-authorizer gates and on Model/Conc.v run_grants inside Coq (vm_compute); compared: "
-                       "reply class per session, gate trace (order of the statements C/R/U/I), uid_next and the (uid, owning session) list of the folder; "
+                       "reply class per session, gate trace (order of the statements C/U/I; R = a separate SELECT of uid_next, absent from the repaired code), uid_next and the (uid, owning session) list of the folder; "
                        "distinct_nontrivial = distinct cases whose first six grants involve more than one session (a real interleaving)")
-    chk.cov["exhaustive_interleavings_2x4"] = len(exhaustive)
+    chk.cov["exhaustive_interleavings"] = len(exhaustive)
     chk.cov["traces_validated_against_impl"] = stats["agree"]
     chk.cov["disagreements_checked"] = stats["diff"]
     chk.cov["cases_outside_finding_classes"] = stats["clean"]
